@@ -599,12 +599,15 @@ func (s *serverStream) SendMsg(m interface{}) error {
 		return io.EOF
 	}
 
+	headersWereSent := s.headersSent
 	s.headersSent = true // sent implicitly
 	err := writeProtoMessage(s.w, s.codec, m, false)
 	if err != nil {
 		if _, ok := err.(marshalError); ok {
 			// nothing was written, so the response stream is still intact
-			// and the final status can still be delivered
+			// and the final status can still be delivered (and headers can
+			// still be set, if they could before)
+			s.headersSent = headersWereSent
 			return err
 		}
 		s.writeFailed = true
